@@ -13,7 +13,7 @@ CONSTANTS MSS, Floor, Cap      \* 1472, 23, and the saturation value standing fo
 
 Min(a, b) == IF a < b THEN a ELSE b
 Max(a, b) == IF a > b THEN a ELSE b
-Sat2(x) == Min(2 * x, Cap)                     \* saturating_mul(2)
+Sat2(x) == IF x > Cap \div 2 THEN Cap ELSE 2 * x   \* saturating_mul(2); never forms a product above Cap (TLC integers are 32 bit)
 
 \* state: [mode, x, ceil, xrecv, nofb, idle, tcp, doubled, rtt]
 \*   mode 0 AwaitSend, 1 SlowStart, 2 ThroughputEqn;  xrecv: sequence of [v, ts, init];  nofb, doubled, rtt: -1 = none
